@@ -8,7 +8,7 @@ git -C /repo worktree add -q --detach "$WT" HEAD || exit 2
 cleanup() { git -C /repo worktree remove --force "$WT" >/dev/null 2>&1; rm -rf "$WT"; }
 trap cleanup EXIT
 cd "$WT"
-TAGS="c08demo c13demo mutantdemo seeddemo"
+TAGS="c01demo c02demo c03demo c04demo c05demo c06demo c07demo c08demo c09demo c10demo c11demo c12demo c13demo c14demo c15demo c16demo c17demo c18demo c19demo c20demo mutantdemo seeddemo demo"
 rundemo() {
   if [ -f "$D/demo.js" ]; then
     node "$D/demo.js" "$WT"
